@@ -263,6 +263,9 @@ def run(ctx: Ctx) -> None:
     # precision flag is switched either way
     for xb in (False, True):
         histories.append([{"kind": k, "fault": None, "x64_before": xb} for k in ("user_interrupt_double", "ok", "user_exit", "user_exit_double", "user_interrupt", "ok_double")])
+    # the caller sits inside JAX's own thread-local precision context
+    for xb in (False, True):
+        histories.append([{"kind": k, "fault": None, "x64_before": xb, "x64_ctx": xc} for k, xc in (("ok", True), ("ok_double", False), ("ok", False), ("user_raise_double", True), ("ok", None))])
     # kinds that must be exercised on every run, whatever the seed picked above
     histories.append([{"kind": k, "fault": None} for k in ("jit_user", "ok", "nnx_linear", "nnx_block", "eqx_linear", "fn_bodytrace_fail", "fn_body_fail", "fn_ok", "loop_fail", "unsupported", "bad_names", "save_fail", "ir_mode", "ok")])
     tasks = [{"fn": "harness.checks.c13:_history_job", "args": {"history": h, "tid": i}, "timeout": 900} for i, h in enumerate(histories)]
@@ -294,7 +297,7 @@ def run(ctx: Ctx) -> None:
                 if bad:
                     n_before = len(ctx.violations)
                     ctx.violation(
-                        {"engine": "host_real", "kind": det["kind"], "fault_kind": (det["fault"] or {}).get("kind"), "what": bad},
+                        {"engine": "host_real", "kind": det["kind"], "fault_kind": (det["fault"] or {}).get("kind"), "what": bad, **({"inside_jax_enable_x64": det["x64_ctx"]} if det.get("x64_ctx") is not None else {})},
                         f"after to_onnx [{det['kind']}, fault={det['fault']}] the process differs: {bad}",
                         det,
                     )
